@@ -8,7 +8,7 @@ import (
 )
 
 func main() {
-	pubConf := pmlib.LoadConf("paths:\n  p:\n    runOnDemand: vcmd demand\n    runOnDemandStartTimeout: 10s\n    runOnDemandCloseAfter: 10s\n")
+	pubConf := pmlib.LoadConf("paths:\n  p:\n    runOnDemand: vcmd demand\n    runOnUnDemand: vexit0 undemand\n    runOnDemandStartTimeout: 10s\n    runOnDemandCloseAfter: 10s\n")
 	stConf := pmlib.LoadConf("paths:\n  p:\n    source: rpiCamera\n    sourceOnDemand: yes\n    sourceOnDemandStartTimeout: 10s\n    sourceOnDemandCloseAfter: 10s\n")
 	bg := []string{"dumper.go"}
 	bgt := []string{"staticsources/handler.go"} // the handler's retry timer (the rpiCamera source fails at once on this platform)
